@@ -271,6 +271,10 @@ def jobs(tier, seed):
                   {"shapes": [F([S(1), S(1), R([S(1), S(1)])])], "opts": {"read_status_in_hooks": True, "stop": "sym", "out_dom": {"*": [0, 2]}, "undef": False},
                    "checks": ["rollup"]},
                   reach=["C03.rollup(feature)", "C03.rollup(rule)"], min_paths=20, cost=7000, validate=100))
+    js.append(Job("c.container-skip-midrun", "vlib.stage1:h_stage1",
+                  {"shapes": [F([S(1), R([S(1), S(1)]), R([S(1)])])] if tier == "quick" else [F([S(1), O(1, [(2, [])]), R([S(1), S(1)]), R([S(1)])])],
+                   "opts": {"skip_container_in_hooks": True, "out_dom": {"*": [0, 1] if tier == "quick" else [0, 2]}, "undef": False}, "checks": ["rollup"]},
+                  reach=["C03.rollup(feature)", "C03.rollup(rule)"], min_paths=20, cost=7000, validate=100))
     js.append(Job("c.midrun-status-reads+hookfault", "vlib.stage1:h_stage1",
                   {"shapes": [F([S(1), S(1)])], "opts": {"read_status_in_hooks": True, "fault": True, "out_dom": {"*": [0, 1]}, "undef": False},
                    "checks": ["rollup"]},
